@@ -356,6 +356,171 @@ func c07ErrStatus(err error) int {
 	return 2
 }
 
+// ---- the deep class: values nested far beyond the generator's usual depth, along the root's self-typed field ----
+
+// nesting depths of the deep class (message levels below the root), visited in this order
+var c07DeepDepths = []int{1024, 10, 1500, 500, 1023, 5000, 1000}
+
+func c07InsertField(v *pgVal, f *pgField, x *pgVal) {
+	i := 0
+	for i < len(v.Fields) && v.Fields[i].F.Num < f.Num {
+		i++
+	}
+	v.Fields = append(v.Fields, pgFV{})
+	copy(v.Fields[i+1:], v.Fields[i:])
+	v.Fields[i] = pgFV{F: f, V: x}
+}
+
+// a message of the root type without nested messages (scalars, strings, lists and maps of scalars only)
+func c07Shallow(r *rng, c *pgCompiled) *pgVal {
+	if r.chance(20) {
+		return &pgVal{Tag: 1, Kind: pgKMessage}
+	}
+	return genProtoValue(r, c, c.S.Root, c.S.Opts.withDefaults().MaxDepth)
+}
+
+// a value of the root type with `depth` nested message levels along the chain field (singular: child; repeated: one of
+// 1-3 elements; map: the value of one of 1-2 entries), shallow content at the root and at the innermost message;
+// spine[i] = the steps from the level-i message to the level-(i+1) message
+func c07DeepValue(r *rng, c *pgCompiled, depth int) (root *pgVal, leaf *pgVal, spine [][]c07Step) {
+	f := c.S.Chain
+	g := &pgValGen{r: r, c: c, budget: 0}
+	leaf = c07Shallow(r, c)
+	cur := leaf
+	spine = make([][]c07Step, depth)
+	for lvl := depth - 1; lvl >= 0; lvl-- {
+		var host *pgVal
+		if lvl == 0 {
+			host = c07Shallow(r, c)
+		} else {
+			host = &pgVal{Tag: 1, Kind: pgKMessage}
+		}
+		fstep := c07Step{Kind: 1, Num: f.Num, Name: f.Name}
+		switch f.Label {
+		case pgSingular:
+			c07InsertField(host, f, cur)
+			spine[lvl] = []c07Step{fstep}
+		case pgRepeated:
+			n, at := 1, 0
+			if r.chance(25) {
+				n = 2 + r.intn(2)
+				at = r.intn(n)
+			}
+			l := &pgVal{Tag: 4, Kind: pgKMessage}
+			for i := 0; i < n; i++ {
+				if i == at {
+					l.Elems = append(l.Elems, cur)
+				} else {
+					l.Elems = append(l.Elems, &pgVal{Tag: 1, Kind: pgKMessage})
+				}
+			}
+			c07InsertField(host, f, l)
+			spine[lvl] = []c07Step{fstep, {Kind: 3, Idx: at}}
+		case pgMap:
+			mv := &pgVal{Tag: 5, Kind: pgKMessage, KeyKind: f.KeyKind}
+			k := g.mapKey(f.KeyKind)
+			mv.Entries = append(mv.Entries, pgKV{K: k, V: cur})
+			if r.chance(25) {
+				k2 := g.mapKey(f.KeyKind)
+				if c07KeyStep(k2) != c07KeyStep(k) {
+					mv.Entries = append(mv.Entries, pgKV{K: k2, V: &pgVal{Tag: 1, Kind: pgKMessage}})
+				}
+			}
+			pgSortEntries(mv.Entries)
+			c07InsertField(host, f, mv)
+			spine[lvl] = []c07Step{fstep, c07KeyStep(k)}
+		}
+		cur = host
+	}
+	return cur, leaf, spine
+}
+
+// the queries of the deep class: the spine messages (and their LIST / MAP containers) at a few levels, paths into the
+// shallow content of the root and of the innermost message, and absent positions next to them
+func c07DeepPaths(r *rng, c *pgCompiled, root, leaf *pgVal, spine [][]c07Step) (valid, absent []c07Path) {
+	f := c.S.Chain
+	depth := len(spine)
+	prefix := func(l int) []c07Step {
+		var out []c07Step
+		for i := 0; i < l; i++ {
+			out = append(out, spine[i]...)
+		}
+		return out
+	}
+	// the value at level l of the spine
+	at := func(l int) *pgVal {
+		cur := root
+		for i := 0; i < l; i++ {
+			var x *pgVal
+			for _, fv := range cur.Fields {
+				if fv.F == f {
+					x = fv.V
+				}
+			}
+			switch x.Tag {
+			case 4:
+				x = x.Elems[spine[i][1].Idx]
+			case 5:
+				for _, kv := range x.Entries {
+					if c07KeyStep(kv.K) == spine[i][1] {
+						x = kv.V
+						break
+					}
+				}
+			}
+			cur = x
+		}
+		return cur
+	}
+	seen := map[int]bool{}
+	for _, l := range []int{1, 2, depth / 2, depth - 1, depth} {
+		if l < 1 || l > depth || seen[l] {
+			continue
+		}
+		seen[l] = true
+		p := prefix(l)
+		valid = append(valid, c07Path{Steps: p, Leaf: at(l), F: f, Elem: f.Label != pgSingular})
+		if f.Label != pgSingular {
+			// the LIST / MAP node holding the level-l message
+			var cont *pgVal
+			for _, fv := range at(l - 1).Fields {
+				if fv.F == f {
+					cont = fv.V
+				}
+			}
+			valid = append(valid, c07Path{Steps: p[:len(p)-1], Leaf: cont, F: f})
+		}
+	}
+	// below the innermost message: the chain field is absent there
+	full := prefix(depth)
+	absent = append(absent, c07Path{Steps: append(append([]c07Step{}, full...), c07Step{Kind: 1, Num: f.Num, Name: f.Name}), F: f})
+	switch f.Label {
+	case pgRepeated:
+		absent = append(absent, c07Path{Steps: append(append([]c07Step{}, prefix(depth-1)...), spine[depth-1][0], c07Step{Kind: 3, Idx: 3 + r.intn(3)}), F: f})
+	}
+	// shallow content of the root and of the innermost message
+	rootShallow := &pgVal{Tag: 1, Kind: pgKMessage}
+	for _, fv := range root.Fields {
+		if fv.F != f {
+			rootShallow.Fields = append(rootShallow.Fields, fv)
+		}
+	}
+	v1, a1 := c07Paths(r, c, rootShallow)
+	for _, p := range a1 {
+		if len(p.Steps) == 1 && p.Steps[0].Num == f.Num {
+			continue // the chain field IS present at the root
+		}
+		absent = append(absent, p)
+	}
+	valid = append(valid, c07Sample(r, v1, 6)...)
+	absent = c07Sample(r, absent, 5)
+	v2, _ := c07Paths(r, c, leaf)
+	for _, p := range c07Sample(r, v2, 4) {
+		valid = append(valid, c07Path{Steps: append(append([]c07Step{}, full...), p.Steps...), Leaf: p.Leaf, F: p.F, Elem: p.Elem})
+	}
+	return
+}
+
 func genC07(r *rng, n int) {
 	// Reused across ALL calls of the run: results must never depend on earlier calls (stale slots of a recycled
 	// PathNode tree / Children slice / GetMany request slice, pool objects).
@@ -365,9 +530,12 @@ func genC07(r *rng, n int) {
 	defer func() { generic.UseNativeSkipForGet = false }()
 	opts := &generic.Options{}
 	produced := 0
+	deepCount := 0
 	for produced < n {
 		sr := r.fork()
-		s := genProtoSchema(sr, pgOpts{BigNumbers: sr.chance(12), StringKeyPct: 25})
+		// one schema in eight has a self-typed field in its root message; its first message is of the deep class
+		deepSchema := sr.chance(12)
+		s := genProtoSchema(sr, pgOpts{BigNumbers: sr.chance(12), StringKeyPct: 25, SelfChain: deepSchema})
 		c, err := compileProtoSchema(s)
 		if err != nil {
 			die("C07: schema does not compile: %v\n%s", err, s.protoText())
@@ -382,11 +550,21 @@ func genC07(r *rng, n int) {
 			if vr.chance(8) {
 				val = &pgVal{Tag: 1, Kind: pgKMessage}
 			}
+			// deep class: the recursive-load APIs on a value nested 10 .. 5000 levels (the reference encodes any depth
+			// and decodes 10000 levels)
+			deep := 0
+			var deepLeaf *pgVal
+			var deepSpine [][]c07Step
+			if deepSchema && k == 0 {
+				deep = c07DeepDepths[deepCount%len(c07DeepDepths)]
+				deepCount++
+				val, deepLeaf, deepSpine = c07DeepValue(vr, c, deep)
+			}
 			bs, err := c.encodeRef(val, s.Root)
 			if err != nil {
 				die("C07: reference encode: %v", err)
 			}
-			if len(bs) > 6000 {
+			if len(bs) > 6000 && deep == 0 {
 				continue
 			}
 			// half of the messages are fed in a non-ascending wire order (groups of one field number shuffled,
@@ -399,7 +577,11 @@ func genC07(r *rng, n int) {
 				die("C07: reference decode: %v", err)
 			}
 			head := append(append([]string{}, sf...), fx(bs))
-			out.emit(701, append(append([]string{}, head...), dump.caseFields()...)...)
+			if deep > 0 {
+				out.emit(704, append(append([]string{}, head...), dump.caseFields()...)...)
+			} else {
+				out.emit(701, append(append([]string{}, head...), dump.caseFields()...)...)
+			}
 
 			// option sweep: UseNativeSkip / UseNativeSkipForGet are documented as not implemented: no result may change;
 			// half of the messages use recycled request slices / trees with ClearDirtyValues
@@ -407,9 +589,14 @@ func genC07(r *rng, n int) {
 			generic.UseNativeSkipForGet = vr.bool()
 			reuse := vr.bool()
 			optsMany := &generic.Options{UseNativeSkip: opts.UseNativeSkip, ClearDirtyValues: reuse}
-			valid, absent := c07Paths(vr, c, val)
-			valid = c07Sample(vr, valid, 40)
-			absent = c07Sample(vr, absent, 10)
+			var valid, absent []c07Path
+			if deep > 0 {
+				valid, absent = c07DeepPaths(vr, c, val, deepLeaf, deepSpine)
+			} else {
+				valid, absent = c07Paths(vr, c, val)
+				valid = c07Sample(vr, valid, 40)
+				absent = c07Sample(vr, absent, 10)
+			}
 			all := append(append([]c07Path{}, valid...), absent...)
 			root := func() generic.Value { return generic.NewRootValue(c.Dyn, bs) }
 
@@ -417,6 +604,9 @@ func genC07(r *rng, n int) {
 				fmt.Fprintf(os.Stderr, "=== message %d line %d\n%s\nbytes %x\n", produced, out.count, c.Text, bs)
 			}
 			emit702 := func(api int, byName bool, f func(p c07Path) []string) {
+				if deep > 0 && api != 7 && api != 10 {
+					return // deep class: the recursive loads only (the other APIs' models cost depth x size per query)
+				}
 				fields := append(append([]string{}, head...), fi(api), fi(len(all)))
 				for qi, p := range all {
 					fields = append(fields, p.fields(byName, nil, vr)...)
@@ -424,7 +614,7 @@ func genC07(r *rng, n int) {
 					ok, pmsg := noPanic(func() { obs = f(p) })
 					if !ok {
 						obs = c07Panic
-						if api == 7 || api == 8 {
+						if api == 7 || api == 8 || api == 10 {
 							obs = append(append([]string{}, c07Panic...), fi(-1))
 						}
 					}
@@ -612,6 +802,33 @@ func genC07(r *rng, n int) {
 				return withLen(cur.Node)
 			})
 			generic.FreePathNode(tree)
+			// 10: Node.Children(recurse=true) on the root into a recycled slice, then walk
+			var kids10 []generic.PathNode
+			var err10 error
+			ok10, _ := noPanic(func() {
+				if reuseChildren == nil {
+					reuseChildren = make([]generic.PathNode, 0, 4)
+				}
+				err10 = root().Children(&reuseChildren, true, opts, c.Dyn)
+				kids10 = reuseChildren
+			})
+			emit702(10, false, func(p c07Path) []string {
+				if !ok10 {
+					return append(append([]string{}, c07Panic...), fi(-1))
+				}
+				if err10 != nil {
+					return []string{fi(c07ErrStatus(err10)), fi(-2), fx(nil), fi(-1)}
+				}
+				cur := generic.PathNode{Next: kids10}
+				for _, st := range p.Steps {
+					ch, ok := c07FindChild(cur.Next, st)
+					if !ok {
+						return []string{fi(1), fi(0), fx(nil), fi(-1)}
+					}
+					cur = ch
+				}
+				return withLen(cur.Node)
+			})
 			// 8: Children(recurse=false) via Node.Children on the root message only (first steps)
 			emit702(8, false, func(p c07Path) []string {
 				if len(p.Steps) != 1 {
@@ -630,6 +847,9 @@ func genC07(r *rng, n int) {
 				return withLen(ch.Node)
 			})
 
+			if deep > 0 {
+				continue
+			}
 			// 703: typed casts and Interface on valid paths (+ the root itself)
 			casts := append([]c07Path{{Steps: nil, Leaf: val}}, valid...)
 			fields := append(append([]string{}, head...), fi(0))
